@@ -35,7 +35,7 @@ WALL_CAP_S = {"quick": 400, "thorough": 3300}
 TASK_TIMEOUT_S = {"quick": 300, "thorough": 900}
 MIN_EVALUATIONS = {"quick": 20, "thorough": 200}
 N = {"quick": 128, "thorough": 1500}
-PATH_CAP = {"quick": 60_000, "thorough": 400_000}
+PATH_CAP = {"quick": 60_000, "thorough": 200_000}
 
 
 def pseudo_criterion(system, s1, s2, sum_mom):  # noqa: ARG001
@@ -266,6 +266,11 @@ def run_scenario(scn):
         except dt.PathCap:
             stats["paths"] = n_paths
             return discard("path-cap")
+        n_done = starts.index((i, d)) + 1
+        if n_done in (4, 16, 32) and n_paths / n_done * len(starts) > 2.0 * scn["path_cap"]:
+            # deterministic early exit: the decision tree of this scenario will not fit the budget
+            stats["paths"] = n_paths
+            return discard("path-cap-predicted")
     stats["paths"] = n_paths
     if had_error:
         return discard("integrator-error-in-trajectory")
